@@ -110,6 +110,16 @@ def strat_load(draw, tier):
             # the flag is also given the way C-minded callers give it (0 / 1)
             "wait": draw(st.sampled_from([False, False, True, None, 0, 1])),
             "n_tries": n_tries, "use_count": use_count, "pre": pre,
+            # requested cores that are still busy with something older (an
+            # application that was never stopped): run / exit, old contents
+            "busy": [[c[0], c[1], p, draw(st.sampled_from([7, 11]))]
+                     for c, p in draw(st.lists(st.sampled_from(sorted(used)),
+                                               max_size=2, unique=True))]
+            if used and draw(st.integers(0, 2)) == 0 else [],
+            # contextual arguments handed over through a context block
+            "ctx": draw(st.lists(st.sampled_from(["app_id", "wait",
+                                                  "n_tries"]),
+                                 min_size=1, max_size=3, unique=True)),
             "style": draw(st.sampled_from(["map", "map", "pair",
                                            "context"]))}
 
@@ -122,6 +132,9 @@ def check_load(case):
     for x, y, p in case["pre"]:
         c = m.chips[(x, y)].cores[p]
         c.state, c.app_id, c.image = 5, app, b"earlier"
+    for x, y, p, state in case.get("busy", []):
+        c = m.chips[(x, y)].cores[p]
+        c.state, c.app_id, c.image = state, 77, b"old!"
     m.sync(router=False, p2p=False)
     m.miss_plan = [set(tuple(map(int, k.split(","))) for k in s)
                    for s in case["miss"]]
@@ -160,8 +173,13 @@ def check_load(case):
                         mc.load_application(path, targets, app_id=app,
                                             **kwargs)
                     elif case["style"] == "context":
-                        with mc(app_id=app):
-                            mc.load_application(amap, **kwargs)
+                        ctx = {}
+                        kw = dict(kwargs, app_id=app)
+                        for name in case.get("ctx", ["app_id"]):
+                            if name in kw:
+                                ctx[name] = kw.pop(name)
+                        with mc(**ctx):
+                            mc.load_application(amap, **kw)
                     else:
                         mc.load_application(amap, app_id=app, **kwargs)
                 error = None
@@ -296,6 +314,10 @@ def check_load(case):
         return {"nontrivial": missed_any and len(chips_in_map) >= 2,
                 "documented": error is not None,
                 "classes": cls + (["missed-a-fill"] if missed_any else []) +
+                           (["busy-target"] if case.get("busy") else []) +
+                           (["wait-by-context"] if case["style"] == "context"
+                            and "wait" in case.get("ctx", []) and
+                            case["wait"] is not None else []) +
                            ["use_count=%s" % case["use_count"]]}
     finally:
         shutil.rmtree(tmp, ignore_errors=True)
